@@ -117,7 +117,7 @@ structure OpsSim (ops : SinkOps κ) (inpS inpW : Bytes) (δ : Nat) (K : Nat → 
     OpRel (K 0)
       (if a + d < x then ops.handleNonTag inpS ⟨pc + δ, ⟨a + d - δ, x - δ⟩, some (.text tt)⟩ ks else (ks, .ok ()))
       (ops.handleNonTag inpW ⟨pc, ⟨a, x⟩, some (.text tt)⟩ kw)
-  textOk : ∀ pc raw tt ks,
+  textOk : ∀ pc raw tt d ks kw, K d ks kw →
     EPanic (ops.handleNonTag inpS ⟨pc, raw, some (.text tt)⟩ ks).2 ∨
     (ops.handleNonTag inpS ⟨pc, raw, some (.text tt)⟩ ks).2 = .ok ()
   startHint : ∀ n ns ks kw, K 0 ks kw → OpRel (K 0) (ops.startTagHint n ns ks) (ops.startTagHint n ns kw)
